@@ -1,6 +1,7 @@
 use crate::{buffer::Buffer, utils};
 
 #[derive(Debug)]
+#[cfg_attr(feature = "verif-hooks", derive(Clone))]
 pub struct History<B: Buffer> {
     /// Buffer that stores element bytes.
     /// Elements are stored null separated, thus no null
@@ -163,6 +164,20 @@ impl<B: Buffer> History<B> {
         }
         self.buffer.as_slice_mut()[null_pos] = 0;
         self.used += text.len() + 1;
+    }
+}
+
+#[cfg(feature = "verif-hooks")]
+impl<B: Buffer> History<B> {
+    /// (whole buffer, used, cursor)
+    pub fn __verif_state(&self) -> (&[u8], usize, Option<usize>) {
+        (self.buffer.as_slice(), self.used, self.cursor)
+    }
+
+    /// Overwrite bytes that are not part of any stored element
+    pub fn __verif_poison(&mut self, byte: u8) {
+        let used = self.used;
+        self.buffer.as_slice_mut()[used..].fill(byte);
     }
 }
 
